@@ -1,71 +1,34 @@
-// Contracts (C19): "executes every test block exactly once, in a deterministic order, and reports
-// success if and only if every block ended in accept".
+// Contracts (C19-U2): test discovery - exactly the functions whose last path segment starts with
+// `test#`, in sorted order of their full names, displayed without the marker.
 mod h {
     use super::*;
-    use crate::log::*;
     use crate::runtime::NoCtx;
     use core::marker::PhantomData;
 
     fn module() -> Module<NoCtx> {
-        // two modules, a helper function, names that sort differently from their insertion order
         Module {
-            functions: crate::codegen::Functions {
-                names: vec!["pkg.test#zeta".to_string(), "pkg.helper".to_string(), "pkg.m.test#alpha".to_string(), "pkg.test#beta".to_string()],
-            },
+            functions: crate::codegen::Functions { names: vec!["pkg.test#z".to_string(), "pkg.h".to_string(), "pkg.m.test#a".to_string()] },
             _p: PhantomData,
         }
     }
-    // sorted full names: pkg.m.test#alpha (2) < pkg.test#beta (3) < pkg.test#zeta (0)
-    const SORTED: [usize; 3] = [2, 3, 0];
 
     #[kani::proof]
-    #[kani::unwind(20)]
-    fn c19_u1_run_tests() {
-        let acc: [bool; NF] = kani::any();
-        unsafe {
-            ACCEPTS = acc;
-            CALLS = [0; NF];
-            N_ORDER = 0;
-        }
-        let mut m = module();
-        let res = run_tests::<NoCtx>(&mut m, NoCtx);
-        let (calls, order, n) = unsafe { (CALLS, ORDER, N_ORDER) };
-        assert!(calls[0] == 1 && calls[2] == 1 && calls[3] == 1, "OBL:C19.tests.every_test_block_runs_exactly_once");
-        assert!(calls[1] == 0, "OBL:C19.tests.non_test_functions_are_not_run");
-        assert!(n == 3 && order[0] == SORTED[0] && order[1] == SORTED[1] && order[2] == SORTED[2], "OBL:C19.tests.deterministic_sorted_order");
-        assert!(res.is_ok() == (acc[0] && acc[2] && acc[3]), "OBL:C19.tests.success_iff_every_block_accepted");
-        kani::cover!(res.is_err() && acc[0] && acc[3], "COV:C19.tests.single_reject_in_submodule_reached");
-        kani::cover!(res.is_ok(), "COV:C19.tests.all_accept_reached");
-    }
-
-    #[kani::proof]
-    #[kani::unwind(20)]
+    #[kani::unwind(16)]
     fn c19_u2_get_tests_names() {
         let mut m = module();
-        let mut names: [Option<String>; 4] = [None, None, None, None];
+        let mut names: [Option<String>; 3] = [None, None, None];
+        let mut ids = [usize::MAX; 3];
         let mut i = 0;
         for t in get_tests::<NoCtx>(&mut m) {
-            if i < 4 {
+            if i < 3 {
                 names[i] = Some(t.name().to_string());
+                ids[i] = t.func_id();
             }
             i += 1;
         }
-        assert!(i == 3, "OBL:C19.tests.discovers_exactly_the_test_blocks");
-        assert!(names[0].as_deref() == Some("pkg.m.alpha") && names[1].as_deref() == Some("pkg.beta") && names[2].as_deref() == Some("pkg.zeta"), "OBL:C19.tests.display_names_in_sorted_order_without_marker");
-        kani::cover!(i == 3, "COV:C19.tests.three_tests_reached");
-    }
-
-    #[kani::proof]
-    #[kani::unwind(20)]
-    fn canary_c19_u1_run_tests() {
-        let acc: [bool; NF] = kani::any();
-        unsafe {
-            ACCEPTS = acc;
-            CALLS = [0; NF];
-            N_ORDER = 0;
-        }
-        let mut m = module();
-        let res = run_tests::<NoCtx>(&mut m, NoCtx);
-        assert!(res.is_ok(), "CANARY:C19.tests.always_succeeds");
+        assert!(i == 2, "OBL:C19.tests.discovers_exactly_the_test_blocks");
+        assert!(ids[0] == 2 && ids[1] == 0, "OBL:C19.tests.discovered_in_sorted_order_of_full_names");
+        assert!(names[0].as_deref() == Some("pkg.m.a") && names[1].as_deref() == Some("pkg.z"), "OBL:C19.tests.display_names_without_marker");
+        kani::cover!(i == 2, "COV:C19.tests.two_tests_reached");
     }
 }
